@@ -1,6 +1,6 @@
 (* Cli.v: the command-line layer (cli.py, __main__.py) at value level: files are already loaded
    (None = the file could not be read or parsed).  Definitions only. *)
-From CCT Require Import Prelude Hex Num Time Formats Json Auth Signing.
+From CCT Require Import Prelude Hex Num Time Formats Json JsonParse Auth Signing.
 From CCT.Gen Require Params Entry UnicodeSpace.
 Open Scope N_scope.
 
@@ -49,6 +49,19 @@ Section Cli.
         | Unmodelled => CliUnmodelled
         end
     | _, _ => Crash
+    end.
+
+  (* the same from the two files as they are on disk (None = no such file): load_metadata_from_file is json.load on the binary file
+     (JsonParse.load_file: encoding guess, byte-order mark, UTF-8 with surrogatepass, the parser); any failure to load is an exception *)
+  Definition loaded (f : option bytes) : option (option pv) :=
+    match f with
+    | None => Some None
+    | Some b => match load_file b with Ok v => Some (Some v) | Err _ => Some None | Unmodelled => None end
+    end.
+  Definition cli_verify_metadata_files (t u : option bytes) : cli_out :=
+    match loaded u, loaded t with
+    | Some u', Some t' => cli_verify_metadata t' u'
+    | _, _ => CliUnmodelled
     end.
 
   (* str.strip().lower() on the key text: Unicode whitespace stripped at both ends; lower() on the ASCII letters
